@@ -8,7 +8,7 @@ CHECKS = {
         level="model_checking", design="5/C19, 4.7",
         text="TLC proves SymTab (machine spec shaped like symbols.rs) refines StackOfMaps (history-based requirement) for all histories "
              "up to the bound; TLC's complete transition relation is exported and the real SymbolTable is driven through ALL histories "
-             "(quick: length<=6 over the 9 operations, thorough: <=8) in lock-step, every answer and projected state compared; random "
+             "(quick: length<=6 over the 9 operations, thorough: <=8; plus a deep and narrow family: one name, enter/exit/bind/lookup, length 10, thorough 12) in lock-step, every answer and the state projected from a CLONE of the table compared; random "
              "200-step histories recorded from the real table are validated by TLC against the trace spec.",
         note="bounded: names {a,b}(+pi,U), 2-3 types, histories <= 8; hashbrown trusted; exit on global scope is a precondition",
         technique="TLA+ refinement checked by TLC + exhaustive lock-step graph walk + TLC trace validation",
@@ -18,7 +18,7 @@ CHECKS["C20"] = dict(
     level="model_checking", design="5/C20, 4.8",
     text="The real promote_types / promote_types_not_equal / can_cast_literal / equal_base_type / implicit_cast_type are tabulated over the "
          "complete finite abstraction (128 types, 16 384 ordered pairs); TLC walks the table one state per pair, evaluates every clause of C20 "
-         "(TypeLattice.tla, written from the statement) on the recorded answers, checks associativity on all 2.1e6 triples (thorough), and compares "
+         "(TypeLattice.tla, written from the statement) on the recorded answers (for implicit_cast_type: + and & give the common type, / gives an upper bound of both numeric operands, symmetric up to const), checks associativity on all 2.1e6 triples (thorough), and compares "
          "the table with the transcription of types.rs (Promote.tla) for drift. Exhaustive over the finite domain.",
     note="width abstraction by ranks (the code only compares widths with max); deviations predicted by named Dev_ operators are known findings",
     technique="TLA+ requirement spec evaluated by TLC on the complete recorded function table (trace validation of a finite function)",
@@ -37,7 +37,7 @@ CHECKS["C14"] = dict(
     engine="walker+tlc")
 CHECKS["C15"] = dict(
     level="model_checking", design="5/C15, 4.2",
-    text="Lexemes.tla states the OpenQASM 3 lexical grammar as a pool of 217 lexeme descriptors plus NeedsSep; TLC enumerates every ordered pair "
+    text="Lexemes.tla states the OpenQASM 3 lexical grammar as a pool of 234 lexeme descriptors plus NeedsSep; TLC enumerates every ordered pair "
          "of lexemes with every admissible separator (4.7e5 cases) and simulated longer sequences; the real lexer + token table must show exactly "
          "those lexemes (kind, exact text) and no lexical error. Design level: the machine specs Lexer.tla (+) TokenTable.tla (LexedStr::new: kind conversion, keyword tables, "
          "diagnostics) are model-checked against Lexemes for the same 4.4e5 sequences (LexRefine.tla, invariant C15_Model, 8.9e5 states), and bound to the code by the MCLexer replay of C14.",
@@ -93,9 +93,9 @@ CHECKS["C16"] = dict(level="model_checking", design="5/C16, 4.6", text=_gram + "
     note="cases whose premise fails are skipped and counted", technique="TLA+ reference grammar as generator + compositionality comparison on the real parser", engine="tlc+replay")
 _anz = ("Analyzer.tla is a machine spec of syntax_to_semantics over lazily generated abstract programs (declarations, assignments, gate calls with modifiers, "
     "reset/barrier/delay/measure, if/else/while/for with block and single-statement bodies, switch with case and default blocks, gate and def definitions, return, pragma, annotations, "
-    "include stdgates, literal statements of every class with optional trivia between number and unit, repeated statements) with "
+    "include stdgates, literal statements of every class with optional trivia between number and unit, repeated statements, indexed identifiers with six index forms as expression statement / reset and measure operand / assignment target) with "
     "names drawn from {a,b,h,U,pi} in every role; each action mirrors one arm of the analyser (order of look-ups, bindings, scope entries/exits, diagnostics). TLC explores it "
-    "exhaustively for short programs, for two focus families (switch/case/default scoping; several user gates colliding with the standard library) and by seeded simulation for long, deeply nested ones, "
+    "exhaustively for short programs, for three focus families (switch/case/default scoping; several user gates colliding with the standard library; declarations and uses of one name in braced and un-braced bodies of if/else/while/for) and by seeded simulation for long, deeply nested ones, "
     "checks the scope-pairing invariants and M |= R (AnalyzerReq: Scoping, UsageRules, AsgShape), and prints every complete program with the "
     "predicted symbols, diagnostics and graph skeleton; the harness renders each under 4 layouts (one of them treats neighbouring statements differently), 2 renamings and all top-level prefixes and compares the real analysis. ")
 CHECKS["C03"] = dict(level="model_checking", design="5/C03, 4.8", text=_anz + "C03 verdict: no panic, scope depth 1 afterwards (hook), invariants ScopeDepthMatchesNesting/BackToGlobal hold in M.",
@@ -106,7 +106,7 @@ CHECKS["C07"] = dict(level="model_checking", design="5/C07, 4.8", text=_anz + "C
     note="shadowing, reuse after scope exit, duplicates, built-ins, U and standard gate names collide through the shared name pool", technique="TLA+ machine spec of scoping explored by TLC, resolution map compared on the real analyser", engine="tlc+replay")
 CHECKS["C13"] = dict(level="model_checking", design="5/C13, 4.8", text=_anz + "C13 verdict: the multiset of usage-rule diagnostics (arity, non-gate, non-quantum operand, quantum operand of a binary operator, const mutation, scope placement, return) equals the predicted one.",
     note="ctrl-modified calls are outside the statement of C13", technique="TLA+ machine spec as oracle, diagnostic multiset comparison", engine="tlc+replay")
-CHECKS["C17"] = dict(level="exploration", design="5/C17, 4.11", text=_anz + "C17 verdict: symbols, diagnostics (with payload) and skeleton are identical across 4 layouts, equal up to the renaming for 2 renamings, a prefix for every top-level prefix, and identical when analysed twice (eight times for programs that include the standard library).",
+CHECKS["C17"] = dict(level="exploration", design="5/C17, 4.11", text=_anz + "C17 verdict: symbols, diagnostics (with payload) and skeleton are identical across 4 layouts, equal up to the renaming for 2 renamings, a prefix for every top-level prefix, and identical when analysed twice (eight times for programs that include the standard library). The typed programs of TypeRules.tla (declarations, signatures, conversions) are analysed under layout-only variants that change ONE bracket and leave its twins alone; symbols, diagnostics and graph must not change.",
     note="metamorphic relations evaluated by the harness on model-generated programs", technique="model-generated programs + metamorphic comparison on the real analyser", engine="tlc+replay")
 CHECKS["C18"] = dict(level="model_checking", design="5/C18, 4.10",
     text="IncludeSem.tla states textual inclusion with ordered path search; Includes.tla models the two phases of the code (parse_included_files building the vector of included files, "
@@ -115,12 +115,14 @@ CHECKS["C18"] = dict(level="model_checking", design="5/C18, 4.10",
          "sample (thorough: all / every 2nd) is materialised in a private directory tree and the real analysis compared (marker stream, tree of tagged diagnostic lists, FileNotFound count).",
     note="acyclic arrangements only; temp tree + env var handled inside the harness process", technique="TLC model check of include machine spec against textual-inclusion requirement + replay of arrangements on disk", engine="tlc+replay")
 CHECKS["C08"] = dict(level="exploration", design="5/C08, 4.8",
-    text="TypeRules.tla enumerates 7 866 (statement kind, target type, value type, value form) rows with the 'must always be diagnosed' flag computed from the statement, and 2 560 "
-         "(operator, operand type pair) rows; the harness analyses each and evaluates: diagnosed, or value type equals target up to const directly, or one explicit cast to exactly the target; "
-         "must-rows need the diagnostic; value expressions carry the type of their symbol/literal class/cast target/measured operand; arithmetic operands have the expression's type or are cast to it.",
+    text="TypeRules.tla enumerates 8 106 (statement kind, target type, value type, value form) rows - scalar types and bit registers of different lengths - with the 'must always be diagnosed' flag computed from the statement, and 18 560 "
+         "(operator, operand type pair, operand forms) rows carrying the common type of the operands; the harness analyses each and evaluates: diagnosed, or value type equals target up to const directly, or one explicit cast to exactly the target; "
+         "must-rows need the diagnostic; value expressions carry the type of their symbol/literal class/cast target/measured operand; an arithmetic expression has the common type (integer division may be the unsized float) and each operand - variable, "
+         "explicit cast, const variable, call, literal - has its own type and on top of it at most one cast to exactly the expression's type.",
     note="exhaustive over the finite abstraction (9 bases x widths {none,8,32,64} x const); 5 known findings pinned by the suite", technique="TLA+ requirement spec as row generator (TLC), rows replayed into the real analyser", engine="tlc+replay")
 CHECKS["C09"] = dict(level="exploration", design="5/C09, 4.8",
-    text="TypeRules.tla enumerates declaration forms x scalar types x widths across [1, 2^33] (digit strings; 'fits' decided on the string) x scopes, invalid designators, gate/def signatures up to 4x4, "
+    text="TypeRules.tla enumerates declaration forms x scalar types x widths across [1, 2^33] (digit strings; 'fits' decided on the string) x scopes, const-identifier designators whose constant is declared or shadowed in an inner scope, "
+         "invalid designators (negative, non-integer, expression, negative constants, identifiers that are const-typed without an integer value), gate/def signatures up to 4x4, "
          "return types with const-identifier designators, and collisions of user gates with every standard-library gate; the harness compares the recorded types, parameter types and the gate listing.",
     note="Debug rendering of types::Type is the observation vocabulary", technique="TLA+ requirement spec as case generator (TLC), cases replayed into the real analyser", engine="tlc+replay")
 NOT_YET = {}
